@@ -99,6 +99,9 @@ def run(ctx):
     ctx.assume("the table is observed through SyncState's private indexes (_oids, _paths, _changeset_storage, _dirtyset) and storage.read_all",
                "MockProvider / MockStorage as collaborators; virtual clock")
     quick = ctx.tier == "quick"
+    ex = [f["exemplar"]["state_case"] for f in ctx.findings if isinstance(f.get("exemplar"), dict) and "state_case" in f["exemplar"]]
+    if ex:
+        run_state_family(ctx, ex, "exemplars of listed findings")
     for ps in (False, True):
         cases = gen_state(ctx, 2, [0], ps)
         cases, _ = sc.slice_cases(cases, 6000 if quick else None, ctx.seed + 1)
